@@ -43,6 +43,9 @@ type TransferPlan struct {
 	MagnetTiers  [][]string `json:"magnet_tiers,omitempty"`
 	// DiskWriteLatMax stretches the window in which a piece write is in flight.
 	DiskWriteLatMax time.Duration `json:"disk_write_lat_max,omitempty"`
+	// YieldP: probability of a seeded yield before each mutex acquisition in rain (see simrt.Yield).
+	YieldP     float64       `json:"yield_p,omitempty"`
+	YieldSleep time.Duration `json:"yield_sleep,omitempty"`
 	// API: concurrent API / RPC users (C20).
 	API *APISpec `json:"api,omitempty"`
 	// Limits: the C17 monitor and its extra actors.
@@ -379,6 +382,10 @@ func hashHex(h [20]byte) string { return hex.EncodeToString(h[:]) }
 
 // RunTransfer executes a transfer plan.
 func RunTransfer(env *Env, plan *TransferPlan) {
+	simrt.SetYield(plan.YieldP, env.Seed)
+	if plan.YieldSleep > 0 {
+		simrt.YieldSleepMax = plan.YieldSleep
+	}
 	w := &transferWorld{env: env, plan: plan, pieceWrites: map[int]int{}, askedPiece: map[int]map[string]bool{}, corruptFull: map[string]time.Duration{}, bannedIPs: map[string]time.Duration{}}
 	env.Net.Cfg = plan.Net
 	T := gen.Build(plan.Layout)
@@ -721,6 +728,9 @@ func RunTransfer(env *Env, plan *TransferPlan) {
 	env.NonTriv = w.writesBegun > 0 || plan.PreSeeded || len(encTaps) > 0
 	if limMon != nil {
 		limMon.finish()
+	}
+	if plan.YieldP > 0 {
+		simrt.Count("fault.sched.yield", simrt.Yields())
 	}
 	if apiClients != nil {
 		time.Sleep(2 * time.Minute)
